@@ -16,6 +16,7 @@ search: the property itself evaluated on the implementation's outputs: the
         constructions/destructions at the end, sanitizer reports.
 """
 import json
+import os
 import subprocess
 
 import vv
@@ -370,6 +371,11 @@ def shrink(exe, T, S, ops, key):
 def run(ck):
     res = vv.prove("Properties_C20", set())
     ck.add_proof(res)
+    # the findings on the pinned tree (..._refuted witnesses on the literal model)
+    ok, out = vv.coq_make(["Props/Refuted_C20.vo"])
+    if not ok:
+        err = vv.coq_first_error(out) or {}
+        ck.add_unshown("proof", err.get("lemma"), "Props/Refuted_C20.v no longer builds: %s" % err.get("message", out[-300:]))
     ck.trusted += ["coq/SmallVec/SmallVecDefs.v is a hand-written model of small_vector.tcc (cells Alive v | Alive "
                    "indeterminate | Raw; range loops as folds of the per-cell action, moves inside one block as "
                    "read-all-then-write-all); tied to the source by the correspondence only",
@@ -399,6 +405,8 @@ def run(ck):
         else:
             cases += random_cases(ck.rng, 60000, 24)
     lines = [show_case(T, S, ops) for T, S, ops in cases]
+    if not os.path.exists(harness):      # the shared build cache may have been collected meanwhile
+        harness = vv.build_harness("h_smallvec", extra=["-O0", "-g1"])
     hout, crashes = run_harness(harness, lines)
     rc, mout, merr = vv.run_lines(model, "\n".join(lines) + "\n")
     if rc != 0 or len(mout) != len(cases):
